@@ -182,19 +182,29 @@ def rule_ordarm(E, R):
             for fld in q["fields"]:
                 if fld["name"] == "op":
                     matched_ops |= set(pat_bindings(fld["pat"]))
-    for node, st in sem.sem_walk(E, h):
+    So = sem.Sem(E, h)
+
+    def is_matched_op(n_, fr_):
+        """the value is the `op` field bound by the `Ordering { op, .. }` pattern (directly, or handed to a private helper)"""
+        v_ = So.resolve(n_, fr_)
+        b_ = v_.bind or So.lookup(v_.node, v_.frame)
+        return b_ is not None and b_.kind == "pat" and any(p_[0] == "f" and "Ordering" in str(p_[1]) and p_[2] == "op" for p_ in b_.proj)
+    for st in So.sites():
+        node = st.node
         if node.get("k") == "Struct" and norm(node["res"].get("path", "")).endswith("::IpOp"):
             f = {x["name"]: x["e"] for x in node["fields"]}
             arm = arm_variants(st, "OrderingOp")
-            R.check(local_name(f.get("op", {})) in matched_ops, rule, CMP_COMPILE,
+            R.check("op" in f and is_matched_op(f["op"], st.frame), rule, CMP_COMPILE,
                     "%s on Ip: comparator built with the matched operator" % (arm[0] if arm else "?"), where=node["sp"])
     want = {(o, k) for o in OPS for k in ("Bytes", "Int", "Ip")}
     R.check(seen == want, rule, CMP_COMPILE, "all 6 operators x 3 types have a generated comparison",
             "missing %s" % sorted(want - seen))
     # the outer match on `op` is over the operator that was parsed
     good = False
-    for m in find_matches(h["body"], r"OrderingOp$"):
-        if local_name(m["scrut"]) in matched_ops:
+    for st in So.sites():
+        m = st.node
+        if m.get("k") == "Match" and not sem.is_try(m) and norm(m["scrut"].get("ty", "")).replace("&", "").endswith("OrderingOp") and \
+                is_matched_op(m["scrut"], st.frame):
             good = True
     R.check(good, rule, CMP_COMPILE, "arms are selected by the parsed operator", where=h["span"])
 
